@@ -42,16 +42,27 @@ TokOf(ci, m, k, i, c) == << ModeOf(ci, m).pats[c[1]].tt, Off(k, i), Off(k, c[2])
 NoTok == <<>>
 
 \* a configuration builds iff no pattern or lookahead is syntactically wrong or uses an
-\* unsupported construct (the harness/generator marks those nodes; C13, C15)
-RECURSIVE Supported(_)
+\* unsupported construct (the harness/generator marks those nodes: "synerr", "unsup"; C13, C15).
+\* A node "open" stands for a construct whose support the documentation leaves open (a Unicode
+\* class name scnr lists but the README does not promise): either verdict is admissible.
+RECURSIVE Supported(_), HasOpen(_)
 Supported(re) ==
-  CASE re.op \in {"eps", "cls"} -> TRUE
+  CASE re.op \in {"eps", "cls", "open"} -> TRUE
     [] re.op \in {"cat", "alt"} -> \A k \in DOMAIN re.xs : Supported(re.xs[k])
     [] re.op \in {"star", "plus", "opt", "rep"} -> Supported(re.l)
     [] OTHER -> FALSE          \* "unsup", "synerr"
+HasOpen(re) ==
+  CASE re.op = "open" -> TRUE
+    [] re.op \in {"cat", "alt"} -> \E k \in DOMAIN re.xs : HasOpen(re.xs[k])
+    [] re.op \in {"star", "plus", "opt", "rep"} -> HasOpen(re.l)
+    [] OTHER -> FALSE
 PatBuildable(p) == Supported(p.re) /\ (p.la.kind # "none" => Supported(p.la.re))
-Buildable(ci) == \A m \in DOMAIN Cfgs[ci].modes :
-                   \A p \in DOMAIN Cfgs[ci].modes[m].pats : PatBuildable(Cfgs[ci].modes[m].pats[p])
+PatOpen(p) == HasOpen(p.re) \/ (p.la.kind # "none" /\ HasOpen(p.la.re))
+AllPats(ci) == UNION { { Cfgs[ci].modes[m].pats[p] : p \in DOMAIN Cfgs[ci].modes[m].pats } : m \in DOMAIN Cfgs[ci].modes }
+Buildable(ci) == \A p \in AllPats(ci) : PatBuildable(p)
+\* the admissible results of build(): must fail / must succeed / open
+BuildVerdicts(ci) == IF ~Buildable(ci) THEN {FALSE}
+                     ELSE IF \E p \in AllPats(ci) : PatOpen(p) THEN {TRUE, FALSE} ELSE {TRUE}
 
 -----------------------------------------------------------------------------
 \* line / column (C09)
@@ -124,7 +135,7 @@ Init == scanners = <<>> /\ iters = <<>> /\ cache = {}
 
 \* build() / build_uncached(): ok = TRUE iff a scanner is returned
 Build(ci, cached, ok) ==
-  /\ ok = Buildable(ci)
+  /\ ok \in BuildVerdicts(ci)
   /\ scanners' = IF ok THEN Append(scanners, [cfg |-> ci, mode |-> 0]) ELSE scanners
   /\ cache' = IF ok /\ cached THEN cache \cup {ci} ELSE cache
   /\ UNCHANGED iters
